@@ -117,7 +117,8 @@ Op(e) ==
          ELSE IF store.ver = 0 \/ v.ver # store.ver + 1 THEN Reject("update-version", store, v)
          ELSE IF IsRmw(r.c.h) \/ r.c.h = "tad"
               THEN IF Strip(v) # Strip(Mut(r.c, store))
-                   THEN Reject(HowOff(Mut(r.c, store), v, r.getInc # inc), Mut(r.c, store), v)
+                   THEN Reject(IF r.c.h \in {"addfin", "remfin"} /\ v.fins # Mut(r.c, store).fins /\ r.getInc = inc
+                               THEN "finalizer-write-not-as-requested" ELSE HowOff(Mut(r.c, store), v, r.getInc # inc), Mut(r.c, store), v)
                    ELSE /\ store' = v
                         /\ calls' = Observe([calls EXCEPT ![e.a].nw = @ + 1, ![e.a].lastWrite = v,
                                                            ![e.a].tdEff = @ \/ (r.c.h = "tad" /\ v.phase = "tearingDown")],
